@@ -46,6 +46,9 @@ type scenario struct {
 	EjectionHigh          bool   // EJECTION_BALANCE just below the maximum: ejections (batched exit queue) become reachable
 	LatePattern           []bool // per epoch (cycled): attestations of that epoch are only included during the next epoch
 	MergeDelay            uint64 // the first MergeDelay slots of bellatrix carry no execution payload (merge transition block later)
+	// BalanceShock: before every second epoch boundary the balances of a quarter of the validators are overwritten (on both sides) with
+	// low values, so that effective balances of ACTIVE validators change a lot at the boundary (proposer and sync-committee sampling depend on them)
+	BalanceShock bool
 }
 
 func (s scenario) String() string {
@@ -194,6 +197,24 @@ func drawScenario(rng *rand.Rand, family string, quick bool, forceLate ...bool) 
 		sc.PDeposits = 0.35 // the eth1 vote of period 0 passes inside the capella epochs: deposits due on the very block that tips it
 		sc.Eth1Creds = 0.7
 		sc.Epochs = 9 + rng.IntN(3)
+	case "sweep":
+		// capella under the custom preset (sweep of 8 validators, 2 withdrawals per payload) with few eth1 credentials: most sweeps end at
+		// their bound, often right in front of a validator that is withdrawable
+		sc.Preset = "custom"
+		sc.Validators = 32 + rng.IntN(24)
+		sc.ForkEpochs = [4]uint64{1, 1, 2, uint64(4 + rng.IntN(3))}
+		sc.Eth1Creds = 0.2
+		sc.POps = 0.3
+		sc.Epochs = 8 + rng.IntN(3)
+	case "shock":
+		sc.BalanceShock = true
+		sc.Validators = 48 + rng.IntN(32)
+		sc.POps = 0.1
+		sc.PBlock = 0.95
+		sc.Epochs = 10 + rng.IntN(3)
+		if rng.IntN(2) == 0 {
+			sc.Preset = "custom"
+		}
 	case "massslash":
 		// most of the registry is slashed within a few epochs: correlation penalties take whole effective balances,
 		// further penalties hit validators with (almost) nothing left (decrease_balance clamps at zero)
@@ -271,7 +292,7 @@ func drawScenario(rng *rand.Rand, family string, quick bool, forceLate ...bool) 
 		lateForks = false
 		sc.ForkEpochs = [4]uint64{1, 2, uint64(6 + rng.IntN(3)), uint64(9 + rng.IntN(3))}
 	}
-	if lateForks && family != "capella" && !(family == "leak" && sc.Epochs > 40) {
+	if lateForks && family != "capella" && family != "sweep" && !(family == "leak" && sc.Epochs > 40) {
 		period := uint64(8)
 		if sc.Preset == "custom" {
 			period = 4
@@ -350,6 +371,14 @@ func runChain(b *fw.B, sc scenario, hooks chainHooks, report func(m *sim.Mismatc
 		part := sc.Participation[int(epoch)%len(sc.Participation)]
 		if sc.LeakEpochs[1] > 0 && int(epoch) >= sc.LeakEpochs[0] && int(epoch) < sc.LeakEpochs[1] {
 			part = 0.3
+		}
+		if sc.BalanceShock && slot%spe == 0 && epoch >= 2 && epoch%2 == 0 {
+			if m := shockBalances(c, rng); m != nil {
+				report(m, trace)
+				return false
+			}
+			trace = append(trace, fmt.Sprintf("before slot %d: balances of a quarter of the validators overwritten", slot))
+			b.Inc("balance_shocks")
 		}
 		if rng.Float64() >= sc.PBlock {
 			// empty slot
@@ -440,6 +469,30 @@ func runChain(b *fw.B, sc scenario, hooks chainHooks, report func(m *sim.Mismatc
 		}
 	}
 	return true
+}
+
+// shockBalances overwrites the balances of about a quarter of the validators with low values, identically in the reference state and in zrnt's.
+func shockBalances(c *sim.Chain, rng *rand.Rand) *sim.Mismatch {
+	bals, err := c.Z.Balances()
+	if err != nil {
+		return &sim.Mismatch{Kind: "harness", What: err.Error()}
+	}
+	inc := c.Sp.EFFECTIVE_BALANCE_INCREMENT
+	choices := []uint64{17 * inc, 20*inc + inc/3, 25 * inc, 29*inc + inc/2, 31*inc + 7*inc/10, inc}
+	for i := range c.Ref.Balances {
+		if rng.IntN(4) != 0 {
+			continue
+		}
+		nb := choices[rng.IntN(len(choices))]
+		if nb > c.Sp.MAX_EFFECTIVE_BALANCE {
+			nb = c.Sp.MAX_EFFECTIVE_BALANCE / 2
+		}
+		c.Ref.Balances[i] = nb
+		if err := bals.SetBalance(common.ValidatorIndex(i), common.Gwei(nb)); err != nil {
+			return &sim.Mismatch{Kind: "harness", What: err.Error()}
+		}
+	}
+	return c.Compare("after overwriting balances on both sides")
 }
 
 func diffStates(sp *refspec.Spec, fork int, refBytes, zBytes []byte) []string {
